@@ -77,23 +77,22 @@ def run_history_equiv(ck, tier):
     from mirse.models.bytesm import vlen, visnum
     from .store_common import CMD_ID
     L = PC.L
+    K = 1
     k = 4 if tier == 'quick' else 5
+    U = (k + 1) * ((k + 1) * 4096 + 4096)   # more than any correct or known-drifting accounting can reach in k commands of <= 4096-byte values
     cmds = ['set', 'get', 'delete', 'flush'] if tier == 'quick' else ['set', 'get', 'delete', 'flush', 'append', 'add']
 
     def extra(cmd, inp):
         return PC.handler_constraints(cmd, inp) + [z3.Not(visnum(inp.val)), z3.ULE(vlen(inp.val), 4096)]
-    A = bmc.System(ck, 1, cmds, extra_assume=extra)
+    A = bmc.System(ck, K, cmds, extra_assume=extra)
     ck.E.loop_bound = 6
-    B = bmc.System(ck, 1, cmds, policy='random', memory_limit=L, extra_assume=lambda c, i: extra(c, i) + [z3.ULT(L, 1 << 40)])
+    B = bmc.System(ck, K, cmds, policy='random', memory_limit=L, extra_assume=lambda c, i: extra(c, i) + [z3.ULT(L, 1 << 40)])
     trA, csA = A.unroll(k, tag='')
     trB, csB = B.unroll(k, tag='~p')
     cs = csA + csB
-    sent = BV(0)
-    for t in range(k):
+    for t in range(k + 1):
         cs.append(trA.S[t].now == trB.S[t].now)
-        sent = sent + BV(24) + vlen(trA.I[t].val)
-    cs.append(trA.S[k].now == trB.S[k].now)
-    cs.append(z3.ULE(2 * sent, L))
+    cs.append(z3.UGE(L, BV(U + (1 << 33))))
     differ = []
     for t in range(k):
         d = trA.rkind[t] != trB.rkind[t]
@@ -109,10 +108,40 @@ def run_history_equiv(ck, tier):
         xb = [x.get('response', x.get('panic')) for x in ob['steps'][:k]]
         desc = f"limit {mval(m, L)} (never reached): {da} | responses with --eviction-policy none {xa} / random {xb}"
         return (True if xa != xb else None), desc, [sa, sb]
-    small = [z3.ULE(L, 1 << 16), z3.ULE(trA.S[0].now, 100)] + [z3.ULE(vlen(trA.I[t].val), 16) for t in range(k)]
-    ck.bounds['history equivalence'] = f'{k} commands from {cmds} on 1 key, same inputs and clock on both systems, 2 x bytes sent <= limit'
+    small = [z3.ULE(L, 1 << 35), z3.ULE(trA.S[0].now, 100)] + [z3.ULE(vlen(trA.I[t].val), 16) for t in range(k)]
+    ck.bounds['history equivalence'] = f'{k} commands from {cmds} on {K} keys, same inputs and clock on both systems, values <= 4096 bytes, limit >= {U} + 2^33'
     ck.cover('history equivalence: both systems run', cs)
     ck.obligation(f'bmc-k{k}: same responses with and without the eviction layer while the limit is out of reach', cs, z3.Not(z3.Or(differ)), {}, on_w, small)
+
+
+def run_headroom(ck, tier):
+    """links the one-step equivalence (which needs limit - usage >= 2^33) to whole histories: along every k-command history
+    on 2 keys behind the eviction layer the accounted usage stays below U_k (no wrap, no runaway), so with limit >= U_k + 2^33
+    the one-step premise holds at every step and the eviction layer never acts"""
+    from . import bmc
+    from mirse.models.bytesm import vlen, visnum
+    L = PC.L
+    K = 2
+    k = 5 if tier == 'quick' else 6
+    U = (k + 1) * ((k + 1) * 4096 + 4096)
+    cmds = ['set', 'get', 'delete', 'flush'] if tier == 'quick' else ['set', 'get', 'delete', 'flush', 'append', 'add']
+    ck.E.loop_bound = 6
+    B = bmc.System(ck, K, cmds, policy='random', memory_limit=L,
+                   extra_assume=lambda c, i: PC.handler_constraints(c, i) + [z3.Not(visnum(i.val)), z3.ULE(vlen(i.val), 4096), z3.ULT(L, 1 << 40), z3.UGE(L, BV(U + (1 << 33)))])
+    tr, cs = B.unroll(k, tag='~h')
+    bad = z3.Or([z3.UGT(tr.S[t].usage, BV(U)) for t in range(1, k + 1)] + [tr.evict[t] for t in range(0)])
+
+    def on_w(m, where):
+        r, d, sc, out = B.replay(m, tr)
+        if out is None:
+            return None, d, sc
+        us = [c.get('usage') for c in out['steps'][:k]]
+        desc = f"limit {mval(m, L)}: {d} | accounted usage after each command {us} (bound {U})"
+        return (True if any(u is not None and u > U for u in us) else None), desc, sc
+    small = [z3.ULE(L, 1 << 35), z3.ULE(tr.S[0].now, 100)] + [z3.ULE(vlen(tr.I[t].val), 16) for t in range(k)]
+    ck.bounds['headroom'] = f'{k} commands from {cmds} on {K} keys, values <= 4096 bytes: accounted usage <= {U}'
+    ck.cover('headroom: histories exist', cs)
+    ck.obligation(f'bmc-k{k}: the accounted usage stays in reach of the bytes sent (the limit stays out of reach)', cs, z3.Not(bad), {}, on_w, small)
 
 
 def run(tier, seed, replay_path=None):
@@ -124,6 +153,7 @@ def run(tier, seed, replay_path=None):
     ck.assumptions += ['library models of DESIGN 3.3', 'tokio runtime constructors, thread spawning and sockets are models (runtime_checks.py)']
     run_equiv(ck, tier)
     run_history_equiv(ck, tier)
+    run_headroom(ck, tier)
     from . import runtime_checks
     runtime_checks.run_plumbing(ck, tier)
     return ck.finish()
